@@ -1,4 +1,6 @@
 import ShellOp.Model.HookRun
+import ShellOp.Model.HookOutText
+import ShellOp.Proofs.HookOutText
 import ShellOp.Generated.Facts
 /-!
 # C12 — hook execution contract: inputs via files, outputs read back, temp files gone
@@ -436,6 +438,154 @@ theorem file_name_formats_table :
     ShellOp.Facts.c12FileNameFormats =
       ["hook-%s-binding-context-%s.json", "hook-%s-metrics-%s.json", "hook-%s-admission-response-%s.json",
        "hook-%s-conversion-response-%s.json", "%s-object-patch-%s"] := by decide
+
+/-! ## third wave: the output files from their TEXT -/
+
+open ShellOp.HookRun.Text in
+/-- The outputs of an execution whose hook wrote these texts into the four files (none deleted):
+`bv` = `ValidateOperations` accepts the metric operations, `sem` = what the schema and the cluster make
+of a well-formed JSON patch, `yaml` = what the YAML reader makes of a patch text that is not JSON. -/
+def outOfTexts (exit : Nat) (bv : Bool) (sem yaml : Patch) (mt at' ct pt : List Char) : Outputs :=
+  ⟨exit, Text.metricsOfText false bv mt, Text.respOfText Text.admissionOk false at',
+    Text.respOfText Text.conversionOk false ct, Text.patchOfText false sem yaml pt⟩
+
+/-- **C12.1 on the file text: "a malformed output fails the execution".** After a zero exit, if the
+text of the metrics file or of the patch file is not a sequence of JSON values of the right type up to
+the end of the file (for the patch file: and the YAML reader rejects it too — the file may be YAML), or
+the text of the admission / conversion response file is not exactly one such value (`Stream` /
+`Whole`: the grammar, not the loop), the execution fails and nothing is applied — no
+patch, no metric, no response. Covers truncated texts, stray closing brackets at a record boundary,
+trailing garbage, a second document, wrong types: everything outside the grammar. -/
+theorem malformed_text_fails (keep : Bool) (names : Names) (oks : List Bool) (dir : List Name)
+    (hok : ∀ b ∈ oks, b = true) (bv : Bool) (sem yaml : Patch) (mt at' ct pt : List Char)
+    (h : (mt ≠ [] ∧ ¬ ∃ vs, Text.Stream (Text.next (Text.typed Text.metricTable)) mt vs) ∨
+         (at' ≠ [] ∧ ¬ ∃ v, Text.Whole (Text.next Text.admissionOk) Text.atEnd at' v) ∨
+         (ct ≠ [] ∧ ¬ ∃ v, Text.Whole (Text.next Text.conversionOk) Text.atEnd ct v) ∨
+         (pt ≠ [] ∧ yaml = .parseErr ∧ ¬ ∃ vs, Text.Stream (Text.next Text.isObj) pt vs)) :
+    let r := handle (run keep names oks (outOfTexts 0 bv sem yaml mt at' ct pt) dir)
+    r.failed = true ∧ r.patchExecuted = false ∧ r.metricsSent = false ∧ r.admissionProp = false ∧
+      r.conversionProp = false := by
+  have hmal : Spec.malformed (outOfTexts 0 bv sem yaml mt at' ct pt) = true := by
+    rcases h with ⟨hne, hbad⟩ | ⟨hne, hbad⟩ | ⟨hne, hbad⟩ | ⟨hne, hy, hbad⟩
+    · have : Text.metricsOfText false bv mt = .err := by
+        have he : mt.isEmpty = false := by cases mt <;> simp_all
+        simp [Text.metricsOfText, he, (Text.streamOk_none_iff _ mt).mpr hbad]
+      simp [Spec.malformed, outOfTexts, this]
+    · have : Text.respOfText Text.admissionOk false at' = .err := by
+        have he : at'.isEmpty = false := by cases at' <;> simp_all
+        simp [Text.respOfText, he, (Text.wholeOk_none_iff _ at').mpr hbad]
+      simp [Spec.malformed, outOfTexts, this]
+    · have : Text.respOfText Text.conversionOk false ct = .err := by
+        have he : ct.isEmpty = false := by cases ct <;> simp_all
+        simp [Text.respOfText, he, (Text.wholeOk_none_iff _ ct).mpr hbad]
+      simp [Spec.malformed, outOfTexts, this]
+    · have : Text.patchOfText false sem yaml pt = .parseErr := by
+        have he : pt.isEmpty = false := by cases pt <;> simp_all
+        simp [Text.patchOfText, he, (Text.streamOk_none_iff _ pt).mpr hbad, hy]
+      simp [Spec.malformed, outOfTexts, this]
+  have ho := handle_outcome keep names oks (outOfTexts 0 bv sem yaml mt at' ct pt) dir hok
+  simp only at ho
+  obtain ⟨h1, h2, h3, h4, h5⟩ := ho
+  simp only [h1, h2, h3, h4, h5]
+  simp [Spec.fails, Spec.patchApplied, Spec.metricsApplied, Spec.admissionRelayed, Spec.conversionRelayed, hmal]
+
+/-- … and only those: when every file is empty or inside the grammar, no output is malformed (the
+execution can then fail only for a semantic reason: rejected batch, failing or invalid patch). -/
+theorem wellformed_text_not_malformed (bv : Bool) (sem yaml : Patch) (hsem : sem ≠ .unreadable ∧ sem ≠ .parseErr)
+    (mt at' ct pt : List Char)
+    (hm : mt = [] ∨ ∃ vs, Text.Stream (Text.next (Text.typed Text.metricTable)) mt vs)
+    (ha : at' = [] ∨ ∃ v, Text.Whole (Text.next Text.admissionOk) Text.atEnd at' v)
+    (hc : ct = [] ∨ ∃ v, Text.Whole (Text.next Text.conversionOk) Text.atEnd ct v)
+    (hp : pt = [] ∨ ∃ vs, Text.Stream (Text.next Text.isObj) pt vs) :
+    Spec.malformed (outOfTexts 0 bv sem yaml mt at' ct pt) = false := by
+  have e1 : Text.metricsOfText false bv mt ≠ .err := by
+    rcases hm with rfl | ⟨vs, hs⟩
+    · simp [Text.metricsOfText]
+    · have := (Text.streamOk_some_iff _ mt vs).mpr hs
+      unfold Text.metricsOfText
+      rw [this]
+      cases vs <;> (simp; try (split <;> simp))
+  have e2 : Text.respOfText Text.admissionOk false at' ≠ .err := by
+    rcases ha with rfl | ⟨v, hv⟩
+    · simp [Text.respOfText]
+    · have := (Text.wholeOk_some_iff _ at' v).mpr hv
+      unfold Text.respOfText
+      rw [this]
+      simp; split <;> simp
+  have e3 : Text.respOfText Text.conversionOk false ct ≠ .err := by
+    rcases hc with rfl | ⟨v, hv⟩
+    · simp [Text.respOfText]
+    · have := (Text.wholeOk_some_iff _ ct v).mpr hv
+      unfold Text.respOfText
+      rw [this]
+      simp; split <;> simp
+  have e4 : Text.patchOfText false sem yaml pt ≠ .unreadable ∧ Text.patchOfText false sem yaml pt ≠ .parseErr := by
+    rcases hp with rfl | ⟨vs, hs⟩
+    · simp [Text.patchOfText]
+    · have := (Text.streamOk_some_iff _ pt vs).mpr hs
+      unfold Text.patchOfText
+      rw [this]
+      cases vs <;> (simp; try (split <;> simp [hsem.1, hsem.2]))
+  simp [Spec.malformed, outOfTexts, e1, e2, e3, e4.1, e4.2]
+
+/-- Regression witnesses on concrete file texts. (1) a stray `}` glued to the last metric record, a
+`]` on its own line, a lone `}`: not in the grammar, rejected by the loop the code has — and accepted by
+the `for dec.More()` loop it does not have (`More()` is false at a closing bracket). (2) a conversion
+response followed by a second document: rejected by `json.Unmarshal` of the whole file, accepted by a
+single `Decode` (the unrepaired reader). -/
+theorem stray_closer_witness :
+    (Text.streamOk (Text.typed Text.metricTable) "{\"name\":\"a\",\"set\":1}}".toList).isNone = true ∧
+    (Text.streamOk (Text.typed Text.metricTable) "{\"name\":\"a\",\"set\":1}\n]\n".toList).isNone = true ∧
+    (Text.streamOk (Text.typed Text.metricTable) "}".toList).isNone = true ∧
+    (Text.decodeLoopMore (Text.next (Text.typed Text.metricTable)) Text.more 40
+        "{\"name\":\"a\",\"set\":1}}".toList []).isSome = true ∧
+    (Text.decodeLoopMore (Text.next (Text.typed Text.metricTable)) Text.more 40 "}".toList []).isSome = true ∧
+    (Text.wholeOk Text.conversionOk "{\"failedMessage\":\"\"}\n{\"failedMessage\":\"x\"}".toList).isNone = true ∧
+    (Text.decodeFirst (Text.next Text.conversionOk)
+        "{\"failedMessage\":\"\"}\n{\"failedMessage\":\"x\"}".toList).isSome = true := by
+  decide
+
+/-- Non-vacuity of the grammar: well-formed texts of each kind are inside it (numbers with fraction
+and exponent, escapes, nested values in an ignored field, `null`), wrongly typed / truncated ones are not. -/
+example :
+    (Text.streamOk (Text.typed Text.metricTable)
+      "{\"name\":\"a\",\"set\":-2.5e-1,\"labels\":{\"k\":\"v\"}} \n{ \"name\" : \"b\", \"add\":1,\"zz\":[1,{\"q\":\"\\u0041\\n\"}]}\n".toList).isSome = true ∧
+    (Text.streamOk (Text.typed Text.metricTable) "{\"name\":7}".toList).isNone = true ∧
+    (Text.streamOk (Text.typed Text.metricTable) "{\"name\":\"a\",\"se".toList).isNone = true ∧
+    (Text.streamOk (Text.typed Text.metricTable) "{\"name\":\"a\",\"set\":01}".toList).isNone = true ∧
+    (Text.wholeOk Text.admissionOk " {\"allowed\":true,\"warnings\":[\"w\"]}\n".toList).isSome = true ∧
+    (Text.wholeOk Text.admissionOk "{\"allowed\":\"yes\"}".toList).isNone = true ∧
+    (Text.wholeOk Text.conversionOk "null".toList).isSome = true ∧
+    (Text.wholeOk Text.conversionOk "{\"convertedObjects\":{}}".toList).isNone = true := by
+  decide
+
+/-! ## third wave: the keep-tmp-files setting -/
+
+/-- The only comparison of the setting in the hook package is `!= "yes"` in `Hook.Run` (regenerated
+from the sources), as documented: "set to yes to disable cleanup of temporary files". -/
+theorem keep_setting_table :
+    ShellOp.Facts.c12KeepCompares = ["hook.go Run != yes"] ∧ ShellOp.Facts.c12KeepLiteral = "yes" ∧
+    ShellOp.Facts.c12KeepFlagHelp = "set to yes to disable cleanup of temporary files" := by decide
+
+/-- Exactly the value "yes" keeps the files. -/
+theorem keep_only_yes (v : String) : keepSetting v = true ↔ v = "yes" := by
+  simp [keepSetting, ShellOp.Facts.c12KeepLiteral]
+
+/-- **C12.2 over the setting.** For every value of `--debug-keep-tmp-files` other than "yes"
+("no", "false", "0", "", "Yes", …) the temp directory after `Run` equals the directory before, whatever
+the outcome. -/
+theorem temp_files_removed_any_setting (v : String) (hv : v ≠ "yes") (names : Names) (oks : List Bool)
+    (out : Outputs) (dir : List Name) (hfresh : ∀ n ∈ names.created, n ∉ dir) :
+    (run (keepSetting v) names oks out dir).dir = dir := by
+  have : keepSetting v = false := by
+    cases h : keepSetting v with
+    | false => rfl
+    | true => exact absurd ((keep_only_yes v).mp h) hv
+  rw [this]
+  exact temp_files_removed names oks out dir hfresh
+
+example : keepSetting "false" = false ∧ keepSetting "0" = false ∧ keepSetting "Yes" = false ∧
+    keepSetting "" = false ∧ keepSetting "yes" = true := by decide
 
 /-! ## non-vacuity -/
 
